@@ -3,7 +3,7 @@
    used only for the names of error kinds in driver output) are mapped to OCaml's; N, Z, positive
    and nat stay Coq datatypes.  No Extract Constant / Extract Inductive of our own. *)
 From Coq Require Import ExtrOcamlBasic ExtrOcamlString.
-From Theo Require Import Base VMModel VMSpec VMCheck Tokens Errors Regex Lexer Scan Gen_Lexer MacroExtract Grammar LR MacroApply Parser GenModel Compile.
+From Theo Require Import Base VMModel VMSpec VMCheck Tokens Errors Regex Lexer Scan SpecLex Gen_Lexer MacroExtract Grammar LR MacroApply Parser GenModel Compile.
 Extraction Language OCaml.
 Set Extraction KeepSingleton.
 Cd "extracted".
@@ -13,7 +13,7 @@ Separate Extraction
   VMModel.exec1 VMModel.execute VMModel.available VMModel.bp_ltb VMModel.z_ltb
   VMCheck.wf_program VMCheck.acyclic_calls VMCheck.ends_in_halt VMCheck.exec_targets VMSpec.tables_ok VMSpec.no_break VMSpec.consts_in_range VMSpec.counts_ok
   Tokens.tk_num Tokens.all_tkinds Errors.ekind_name Errors.perr_type
-  Scan.scan Gen_Lexer.rules Lexer.lex
+  Scan.scan Gen_Lexer.rules Lexer.lex SpecLex.lang SpecLex.star_free SpecLex.splice
   MacroExtract.extract_macros
   Grammar.calculate_first_sets Grammar.add_rule Grammar.create_nt Grammar.empty_grammar Grammar.first
   MacroApply.apply_macros MacroApply.apply_macros_gen MacroApply.make_detector
